@@ -197,14 +197,8 @@ theorem layout_alter_ok : alterLayout.ok = true := by decide
 theorem layout_table_ok : tableLayout.ok = true := by decide
 theorem layout_comment_ok : commentLayout.ok = true := by decide
 
-theorem wf_optSq (s : Option Str) (h : optPlain s = true) : wf true (optSq s) = true := by
-  cases s with
-  | none => exact wf_pyNone true
-  | some s => simpa [optSq, wf, optPlain] using h
-
-/-- every renderer produces a well-formed expression (names arbitrary; opaque fragments well-formed;
-table-comment names plain) -/
-theorem wf_renderOp (c : Ctx) (h : ctxOk c = true) (o : Op) (ho : opOk o = true) (hp : plainOk c o = true) :
+/-- every renderer produces a well-formed expression (names arbitrary; opaque fragments well-formed) -/
+theorem wf_renderOp (c : Ctx) (h : ctxOk c = true) (o : Op) (ho : opOk o = true) :
     wf true (renderOp c o) = true := by
   cases o with
   | createTable name schema cols cons comment kws ine =>
@@ -345,29 +339,18 @@ theorem wf_renderOp (c : Ctx) (h : ctxOk c = true) (o : Op) (ho : opOk o = true)
     · simp only [wfItems_append, Bool.and_eq_true]
       exact ⟨by simp [wfItems, wfItem, pos, wf], wfItems_schemaKw _⟩
   | createTableComment table comment existing schema =>
-    simp only [plainOk, Bool.or_eq_true, Bool.and_eq_true] at hp
     simp only [renderOp]
-    split
-    · simp only [wf, Bool.and_eq_true]
-      exact ⟨⟨⟨vw c h "create_table_comment" (by decide), layout_comment_ok⟩, by simp [commentLayout]⟩,
+    split <;> simp only [wf, Bool.and_eq_true]
+    · exact ⟨⟨⟨vw c h "create_table_comment" (by decide), layout_comment_ok⟩, by simp [commentLayout]⟩,
         by simp [wfItems, wfItem, pos, kw, wf_optStr]; decide⟩
-    · rename_i hb
-      have hp' := hp.resolve_left hb
-      simp only [wf, Bool.and_eq_true]
-      exact ⟨⟨⟨vw c h "create_table_comment" (by decide), layout_comment_ok⟩, by simp [commentLayout]⟩,
-        by simp [wfItems, wfItem, pos, kw, wf, wf_optStr, hp'.1, wf_optSq _ hp'.2]; decide⟩
+    · exact ⟨⟨⟨vw c h "create_table_comment" (by decide), layout_comment_ok⟩, by simp [commentLayout]⟩,
+        by simp [wfItems, wfItem, pos, kw, wf, wf_optStr]; decide⟩
   | dropTableComment table existing schema =>
-    simp only [plainOk, Bool.or_eq_true, Bool.and_eq_true] at hp
     simp only [renderOp]
-    split
-    · simp only [wf, Bool.and_eq_true]
-      exact ⟨⟨⟨vw c h "drop_table_comment" (by decide), layout_comment_ok⟩, by simp [commentLayout]⟩,
+    split <;> simp only [wf, Bool.and_eq_true]
+    · exact ⟨⟨⟨vw c h "drop_table_comment" (by decide), layout_comment_ok⟩, by simp [commentLayout]⟩,
         by simp [wfItems, wfItem, kw, wf_optStr]; decide⟩
-    · rename_i hb
-      have hp' := hp.resolve_left hb
-      simp only [wf, Bool.and_eq_true]
-      exact ⟨⟨⟨vw c h "drop_table_comment" (by decide), layout_comment_ok⟩, by simp [commentLayout]⟩,
-        by simp [wfItems, wfItem, pos, kw, wf, wf_optStr, hp'.1, wf_optSq _ hp'.2]; decide⟩
-
+    · exact ⟨⟨⟨vw c h "drop_table_comment" (by decide), layout_comment_ok⟩, by simp [commentLayout]⟩,
+        by simp [wfItems, wfItem, pos, kw, wf, wf_optStr]; decide⟩
 
 end Model.Render
